@@ -19,6 +19,8 @@ impl ToTokens for ErrorDeclaration {
 #[derive(Default)]
 pub struct ErrorCheck<'a> {
     location: Option<&'a str>,
+    /// Expression whose span is given to the returned error, if it has none.
+    spanned: Option<TokenStream>,
     __hidden: (),
 }
 
@@ -26,13 +28,27 @@ impl<'a> ErrorCheck<'a> {
     pub fn with_location(location: &'a str) -> Self {
         ErrorCheck {
             location: Some(location),
+            spanned: None,
             __hidden: (),
         }
+    }
+
+    /// Attach the span of `node` (an expression in scope in the generated code) to the
+    /// returned error before it is located.
+    pub fn with_span_of(mut self, node: TokenStream) -> Self {
+        self.spanned = Some(node);
+        self
     }
 }
 
 impl ToTokens for ErrorCheck<'_> {
     fn to_tokens(&self, tokens: &mut TokenStream) {
+        let span_call = if let Some(ref node) = self.spanned {
+            quote!(.map_err(|e| e.with_span(#node)))
+        } else {
+            quote!()
+        };
+
         let at_call = if let Some(ref s) = self.location {
             quote!(.map_err(|e| e.at(#s)))
         } else {
@@ -40,7 +56,7 @@ impl ToTokens for ErrorCheck<'_> {
         };
 
         tokens.append_all(quote! {
-            __errors.finish() #at_call?;
+            __errors.finish() #span_call #at_call?;
         })
     }
 }
